@@ -150,7 +150,17 @@ def _install(fs):
     sys.modules["netCDF4"] = nc4
 
 
-def _ctor(cls, name, exists, force, upper=False, **kw):
+ALT_EXT = {"f.h5": "f.hdf5", "f.nc": "f.netcdf", "f.mdcrd": "f.crd", "f.ncrst": "f.rst", "f.rst7": "f.inpcrd"}
+
+
+def _ctor(cls, name, exists, force, upper=False, ext=0, **kw):
+    # the protection must not depend on how the file is called: 1 = another customary extension of the format, 2 = a foreign extension, 3 = none
+    if ext == 1:
+        name = ALT_EXT.get(name, name)
+    elif ext == 2 and not name.endswith(".gz"):
+        name = name.rsplit(".", 1)[0] + ".dat"
+    elif ext == 3 and not name.endswith(".gz"):
+        name = name.rsplit(".", 1)[0]
     if upper:                      # the target path is case-sensitive and may contain directories
         name = "Dir_A/" + name[0].upper() + name[1:]
     fs = FS(lambda p: exists and p == name)    # only the EXACT target path exists
@@ -177,74 +187,84 @@ _CLASSES = {
 }
 
 
-def ctor_h5(exists: bool, force: bool, upper: bool) -> bool:
+def ctor_h5(exists: bool, force: bool, upper: bool, ext: int = 0) -> bool:
     """
+    pre: 0 <= ext <= 3
     post: __return__
     """
-    return _ctor(*_CLASSES["h5"][:2], exists, force, upper)
+    return _ctor(*_CLASSES["h5"][:2], exists, force, upper, ext=conc(ext, 0, 3))
 
 
-def ctor_nc(exists: bool, force: bool, upper: bool) -> bool:
+def ctor_nc(exists: bool, force: bool, upper: bool, ext: int = 0) -> bool:
     """
+    pre: 0 <= ext <= 3
     post: __return__
     """
-    return _ctor(*_CLASSES["nc"][:2], exists, force, upper)
+    return _ctor(*_CLASSES["nc"][:2], exists, force, upper, ext=conc(ext, 0, 3))
 
 
-def ctor_mdcrd(exists: bool, force: bool, upper: bool) -> bool:
+def ctor_mdcrd(exists: bool, force: bool, upper: bool, ext: int = 0) -> bool:
     """
+    pre: 0 <= ext <= 3
     post: __return__
     """
-    return _ctor(*_CLASSES["mdcrd"][:2], exists, force, upper)
+    return _ctor(*_CLASSES["mdcrd"][:2], exists, force, upper, ext=conc(ext, 0, 3))
 
 
-def ctor_xyz(exists: bool, force: bool, gz: bool, upper: bool) -> bool:
+def ctor_xyz(exists: bool, force: bool, gz: bool, upper: bool, ext: int = 0) -> bool:
     """
+    pre: 0 <= ext <= 3
     post: __return__
     """
-    return _ctor(*_CLASSES["xyzgz" if gz else "xyz"][:2], exists, force, upper)
+    return _ctor(*_CLASSES["xyzgz" if gz else "xyz"][:2], exists, force, upper, ext=conc(ext, 0, 3))
 
 
-def ctor_lammpstrj(exists: bool, force: bool, upper: bool) -> bool:
+def ctor_lammpstrj(exists: bool, force: bool, upper: bool, ext: int = 0) -> bool:
     """
+    pre: 0 <= ext <= 3
     post: __return__
     """
-    return _ctor(*_CLASSES["lammpstrj"][:2], exists, force, upper)
+    return _ctor(*_CLASSES["lammpstrj"][:2], exists, force, upper, ext=conc(ext, 0, 3))
 
 
-def ctor_gro(exists: bool, force: bool, upper: bool) -> bool:
+def ctor_gro(exists: bool, force: bool, upper: bool, ext: int = 0) -> bool:
     """
+    pre: 0 <= ext <= 3
     post: __return__
     """
-    return _ctor(*_CLASSES["gro"][:2], exists, force, upper)
+    return _ctor(*_CLASSES["gro"][:2], exists, force, upper, ext=conc(ext, 0, 3))
 
 
-def ctor_pdb(exists: bool, force: bool, gz: bool, upper: bool) -> bool:
+def ctor_pdb(exists: bool, force: bool, gz: bool, upper: bool, ext: int = 0) -> bool:
     """
+    pre: 0 <= ext <= 3
     post: __return__
     """
-    return _ctor(*_CLASSES["pdbgz" if gz else "pdb"][:2], exists, force, upper)
+    return _ctor(*_CLASSES["pdbgz" if gz else "pdb"][:2], exists, force, upper, ext=conc(ext, 0, 3))
 
 
-def ctor_rst7(exists: bool, force: bool, upper: bool) -> bool:
+def ctor_rst7(exists: bool, force: bool, upper: bool, ext: int = 0) -> bool:
     """
+    pre: 0 <= ext <= 3
     post: __return__
     """
-    return _ctor(*_CLASSES["rst7"][:2], exists, force, upper)
+    return _ctor(*_CLASSES["rst7"][:2], exists, force, upper, ext=conc(ext, 0, 3))
 
 
-def ctor_ncrst(exists: bool, force: bool, upper: bool) -> bool:
+def ctor_ncrst(exists: bool, force: bool, upper: bool, ext: int = 0) -> bool:
     """
+    pre: 0 <= ext <= 3
     post: __return__
     """
-    return _ctor(*_CLASSES["ncrst"][:2], exists, force, upper)
+    return _ctor(*_CLASSES["ncrst"][:2], exists, force, upper, ext=conc(ext, 0, 3))
 
 
-def ctor_lh5(exists: bool, force: bool, upper: bool) -> bool:
+def ctor_lh5(exists: bool, force: bool, upper: bool, ext: int = 0) -> bool:
     """
+    pre: 0 <= ext <= 3
     post: __return__
     """
-    return _ctor(*_CLASSES["lh5"][:2], exists, force, upper)
+    return _ctor(*_CLASSES["lh5"][:2], exists, force, upper, ext=conc(ext, 0, 3))
 
 
 def open_maybe_zipped_w(exists: bool, force: bool, ext: int, upper: bool) -> bool:
